@@ -8,11 +8,11 @@
    SHA-256.  Every soundness theorem says: status OK => the disk layer's Put was reached with the
    DECLARED digest and the decoded payload and accepted it (Proofs/Disk_ack.exec_put_ok_sound), hence
    [body_good]; the remaining ways to an OK are named in the statement: the blob was already reported
-   present (ByteStream.Write, SpliceBlob, FetchBlob answer OK without reading the data), or the empty
-   digest was claimed and no data came ([empty_claim]).  One path has a hole: BatchUpdateBlobs answers
-   OK for an unsupported compressor without storing anything — stated as a refutation below. *)
+   present (ByteStream.Write, SpliceBlob, FetchBlob answer OK without reading the data; ByteStream.Write
+   does NOT take that shortcut for the empty digest, [bs_shortcut]), or the empty digest was claimed and
+   no data came ([empty_claim]). *)
 From BR Require Import Base.Prelude Model.LRU Model.Disk Model.Front
-  Proofs.Front_base Proofs.Front_ack Proofs.Front_reject Proofs.Front_examples.
+  Proofs.Front_base Proofs.Front_ack Proofs.Front_reject Proofs.Front_limit Proofs.Front_examples.
 Open Scope Z_scope.
 
 (* ---- 1/2: HTTP PUT, plain and Content-Encoding: zstd ---- *)
@@ -26,31 +26,23 @@ Proof. exact http_put_sound. Qed.
 Print Assumptions C01_paths_http_put_ack_sound.
 
 (* ---- 3/4: BatchUpdateBlobs, IDENTITY and ZSTD ---- *)
-(* the statement one wants ... *)
-Definition C01_paths_batch_update_ack_sound_statement : Prop :=
-  forall c d e d', bu_one c d e = (d', SOk) -> bu_good e.
-(* ... holds for the two supported compressors ... *)
-Theorem C01_paths_batch_update_ack_sound_partial :
-  forall c es d d' statuses,
-    batch_update c d es [] = (d', SOk, statuses) ->
-    exists l, statuses = l /\
-      Forall2 (fun e s => s = SOk -> (exists n, bu_comp e = COther n) \/ bu_good e) es l.
-Proof. intros c es d d' l H. destruct (batch_update_sound c es d [] d' l H) as [l' [-> HF]]. exists l'. split; [reflexivity|exact HF]. Qed.
-Print Assumptions C01_paths_batch_update_ack_sound_partial.
-(* ... and is FALSE of the code as it is: a blob sent with compressor DEFLATE/BROTLI/unknown gets the
-   per-blob status OK (gRPCErrCode(nil, InvalidArgument) = OK), is not stored, and is missing afterwards *)
-Theorem C01_paths_batch_update_unsupported_compressor_refuted :
-  exists c d e, bu_one c d e = (d, SOk) /\ ~ bu_good e /\
-    run_ops c d [FBatchUpdate [e]; FFindMissing [(bu_hash e, bu_size e)]] = [OSts SOk [SOk]; OMiss [(bu_hash e, bu_size e)]].
-Proof. exists cfgZ, store0, hole_entry. exact batch_unsupported_compressor_acknowledged. Qed.
-Print Assumptions C01_paths_batch_update_unsupported_compressor_refuted.
+Theorem C01_paths_batch_update_ack_sound :
+  (forall c d e d', bu_one c d e = (d', SOk) -> bu_good e) /\
+  (forall c es d d' statuses,
+     batch_update c d es [] = (d', SOk, statuses) ->
+     Forall2 (fun e s => s = SOk -> bu_good e) es statuses).
+Proof.
+  split; [exact bu_one_sound|].
+  intros c es d d' l H. destruct (batch_update_sound c es d [] d' l H) as [l' [-> HF]]. exact HF.
+Qed.
+Print Assumptions C01_paths_batch_update_ack_sound.
 
 (* ---- 5/6: ByteStream.Write to blobs/ and compressed-blobs/zstd/ ---- *)
 Theorem C01_paths_bytestream_write_ack_sound :
   forall c d name msgs aborted payload rnd d',
     bs_write c d name msgs aborted payload rnd = (d', SOk) ->
     exists zstd hash size, name = WN zstd hash size /\ 0 <= size <= fc_grpc_max c /\ validate_hash hash size = true /\
-      (snd (fst (disk_contains c d CAS hash size)) = true
+      (bs_shortcut (snd (fst (disk_contains c d CAS hash size))) hash size = true
        \/ exists received, recv_loop zstd size 0 true msgs aborted = (received, None) /\
             if zstd then body_good payload size \/ empty_claim hash size (b_len payload)
             else (received = size /\ b_hash_ok payload = true) \/ empty_claim hash size received).
@@ -105,15 +97,15 @@ Theorem C01_paths_malformed_rejected :
      http_put c d u hash cl xd ce b rnd = (d', st) -> http_declared cl xd = Some len ->
      corrupt b len -> ~ empty_claim hash len (b_len b) -> st <> SOk) /\
   (forall c d e d' st,
-     bu_one c d e = (d', st) -> (forall n, bu_comp e <> COther n) ->
+     bu_one c d e = (d', st) ->
      corrupt (bu_body e) (bu_size e) -> ~ empty_claim (bu_hash e) (bu_size e) (b_len (bu_body e)) -> st <> SOk) /\
   (forall c d hash size msgs ab b rnd d' st,
      bs_write c d (WN true hash size) msgs ab b rnd = (d', st) ->
-     snd (fst (disk_contains c d CAS hash size)) = false ->
+     bs_shortcut (snd (fst (disk_contains c d CAS hash size))) hash size = false ->
      corrupt b size -> ~ empty_claim hash size (b_len b) -> st <> SOk) /\
   (forall c d hash size msgs ab b rnd d' st,
      bs_write c d (WN false hash size) msgs ab b rnd = (d', st) ->
-     snd (fst (disk_contains c d CAS hash size)) = false ->
+     bs_shortcut (snd (fst (disk_contains c d CAS hash size))) hash size = false ->
      b_hash_ok b = false -> hash <> emptySha256 -> st <> SOk) /\
   (forall c d dfn cs blob computed cid rnd d' st,
      splice c d dfn cs blob computed false cid rnd = (d', st) ->
@@ -140,7 +132,7 @@ Print Assumptions C01_paths_malformed_rejected.
 
 (* (b) by the front end itself, with the exact status and the state untouched: unsupported
    Content-Encoding, unparseable X-Digest-SizeBytes, no length at all (400); undecodable zstd in a
-   batch (Internal), decoded length different from the digest size (InvalidArgument), invalid digest
+   batch (Internal), unsupported compressor in a batch (InvalidArgument), decoded length different from the digest size (InvalidArgument), invalid digest
    (the whole call: InvalidArgument); unparsable resource name / unsupported compressor in it
    (InvalidArgument); unsupported digest function, bad chunk list incl. int64 overflow of the sum, sum
    different from the blob size (InvalidArgument) *)
@@ -149,7 +141,8 @@ Theorem C01_paths_front_end_refusals :
   (forall c d u hash cl ce b rnd, http_put c d u hash cl XBad ce b rnd = (d, bad)) /\
   (forall c d u hash ce b rnd, http_put c d u hash (-1) XAbsent ce b rnd = (d, bad)) /\
   (forall c d e, bu_comp e = CZstd -> b_clean (bu_body e) = false -> bu_one c d e = (d, SErr EInternal)) /\
-  (forall c d e, (forall n, bu_comp e <> COther n) -> b_clean (bu_body e) = true ->
+  (forall c d e n, bu_comp e = COther n -> bu_one c d e = (d, bad)) /\
+  (forall c d e, b_clean (bu_body e) = true ->
                  b_len (bu_body e) <> bu_size e -> bu_one c d e = (d, bad)) /\
   (forall c d e t acc, bu_nil e = false -> validate_hash (bu_hash e) (bu_size e) = false ->
                        batch_update c d (e :: t) acc = (d, bad, [])) /\
@@ -162,18 +155,11 @@ Theorem C01_paths_front_end_refusals :
   (forall c d dfn cs h s computed ok cid rnd total, check_chunks cs 0 = Some total -> total <> s ->
                  splice c d dfn cs (Some (h, s)) computed ok cid rnd = (d, bad)).
 Proof.
-  repeat split.
-  - exact http_put_unsupported_encoding.
-  - exact http_put_bad_xdigest.
-  - exact http_put_no_length.
-  - exact bu_one_undecodable.
-  - exact bu_one_wrong_length.
-  - exact batch_update_bad_digest.
-  - apply bs_write_bad_name.
-  - apply bs_write_bad_name.
-  - exact splice_bad_digest_function.
-  - exact splice_bad_chunks.
-  - exact splice_wrong_total.
+  split; [exact http_put_unsupported_encoding|]. split; [exact http_put_bad_xdigest|].
+  split; [exact http_put_no_length|]. split; [exact bu_one_undecodable|].
+  split; [exact bu_one_unsupported|]. split; [exact bu_one_wrong_length|].
+  split; [exact batch_update_bad_digest|]. split; [exact bs_write_bad_name|].
+  split; [exact splice_bad_digest_function|]. split; [exact splice_bad_chunks|exact splice_wrong_total].
 Qed.
 Print Assumptions C01_paths_front_end_refusals.
 
@@ -183,7 +169,7 @@ Print Assumptions C01_paths_front_end_refusals.
    in a later message -> InvalidArgument; a stream the client aborts never completes *)
 Theorem C01_paths_bytestream_protocol_errors :
   (forall c d z hash size b rnd, 0 <= size <= fc_grpc_max c -> validate_hash hash size = true ->
-     snd (fst (disk_contains c d CAS hash size)) = false ->
+     bs_shortcut (snd (fst (disk_contains c d CAS hash size))) hash size = false ->
      (forall m0 rest ab, wm_off m0 <> 0 ->
         snd (bs_write c d (WN z hash size) (m0 :: rest) ab b rnd) = SErr EInternal) /\
      (forall m0 rest ab received x, wm_off m0 = 0 ->
@@ -205,6 +191,29 @@ Proof.
 Qed.
 Print Assumptions C01_paths_bytestream_protocol_errors.
 
+(* ---- well-formed uploads within the limits reach the disk layer unchanged ---- *)
+(* the front end adds no refusal of its own: the answer is the disk layer's Put of (CAS, declared hash,
+   declared size, decoded payload), whose acceptance condition is C01_ack_complete in Properties/C01.v *)
+Theorem C01_paths_wellformed_reach_disk_layer :
+  (forall c d hash cl xd ce b rnd len,
+     http_declared cl xd = Some len -> 0 < len <= fc_http_max c -> ce <> CeOther ->
+     http_put c d true hash cl xd ce b rnd =
+     (let '(d', r) := disk_put c d CAS hash len (stream_of b) rnd in (d', match r with None => SOk | Some e => SErr e end))) /\
+  (forall c d e,
+     (forall n, bu_comp e <> COther n) -> b_clean (bu_body e) = true -> b_len (bu_body e) = bu_size e ->
+     bu_one c d e =
+     (let '(d', r) := disk_put c d CAS (bu_hash e) (bu_size e) (stream_of (bu_body e)) (bu_rnd e) in (d', put_status EInternal r))) /\
+  (forall c d z hash size m0 rest ab b rnd,
+     0 <= size <= fc_grpc_max c -> validate_hash hash size = true ->
+     bs_shortcut (snd (fst (disk_contains c d CAS hash size))) hash size = false -> wm_off m0 = 0 ->
+     bs_write c d (WN z hash size) (m0 :: rest) ab b rnd =
+     (let d1 := fst (fst (disk_contains c d CAS hash size)) in
+      let '(piped, e) := recv_loop z size 0 true (m0 :: rest) ab in
+      let '(d2, r) := disk_put c d1 CAS hash size (bs_stream z b piped (match e with Some _ => true | None => false end)) rnd in
+      match e with Some x => (d2, SErr x) | None => (d2, put_status EInternal r) end)).
+Proof. split; [exact http_put_within_limit|]. split; [exact bu_one_wellformed|exact bs_write_within_limit]. Qed.
+Print Assumptions C01_paths_wellformed_reach_disk_layer.
+
 (* ---- non-vacuity ---- *)
 
 (* well-formed uploads of exactly the limit are accepted through all ten paths, in both storage
@@ -218,6 +227,12 @@ Example C01_paths_example_rejected :
   run_ops (wired true 100000) store0 corrupted = corrupted_expected /\
   run_ops (wired false 100000) store0 corrupted = corrupted_expected.
 Proof. exact corrupted_rejected. Qed.
+
+(* regression cases of two repaired defects (unsupported compressor in a batch; data under the empty
+   digest through ByteStream.Write and HTTP PUT), and the genuinely empty uploads that stay accepted *)
+Example C01_paths_example_repaired :
+  run_ops cfgZ store0 repaired = repaired_expected /\ run_ops cfgU store0 repaired = repaired_expected.
+Proof. exact repaired_defects_stay_repaired. Qed.
 
 Example C01_paths_example_overflow :
   check_chunks [mkChunk false emptySha256 1] 0 = None /\
